@@ -232,6 +232,16 @@ let handle_src (w : Stdlib.String.t list) : Stdlib.String.t =
            Printf.sprintf "%s enabled=%d crashed=- out=%s log=%s"
              (if Model.all_done cs then "TERMINAL" else "RUNNING") (if Model.all_done cs then 0 else int_of_nat (Model.enabled_count0 cs))
              (hex (Model.conc_output cs)) (Buffer.contents b))
+  | ["simrun"; t; pad; inp; sched] ->
+      (* the executable simulation relation RefineConcSim.simb between PipeConc and the translated protocol under MiniCConc,
+         evaluated initially and after every step of the schedule *)
+      let t = nat_of_int (int_of_string t) and pad = (pad = "1") in
+      let sched = if sched = "-" then [] else List.map (fun x -> nat_of_int (int_of_string x)) (String.split_on_char ',' sched) in
+      (match Model.sim_run_full (buf ()) t pad (unhex inp) sched with
+       | Model.RunOk -> "SIM ok"
+       | Model.SimFails n -> Printf.sprintf "SIM relation-fails-after-step %d" (int_of_nat n)
+       | Model.ModelStuck n -> Printf.sprintf "SIM model-stuck-at %d" (int_of_nat n)
+       | Model.MachineStuck n -> Printf.sprintf "SIM machine-stuck-at %d" (int_of_nat n))
   | "clip" :: toks ->
       (match Model.src_cli_parse (List.map tok_of_string (List.filter (fun x -> x <> "") toks)) with
        | SOk None -> "NULL" | SOk (Some p) -> cpak_string p | SErr w -> "ERR " ^ coqstr w)
